@@ -9,7 +9,7 @@ PROP = dict(
     level_note=("Trusted: reference tokeniser in harness/lib/refbench (written from the benchunit documentation), math/big, strconv. "
                 "Value tolerance (k+2) ulp for k rewritten components (the implementation multiplies by a float factor built by "
                 "repeated multiplication/division). Units given to the reader contain no white space (they are fields)."),
-    technique="property-based differential testing (rapid) + exhaustive small-unit grid",
+    technique="property-based differential testing (rapid) + exhaustive small-unit grid; native fuzzing in thorough",
     rule=("Units of 1-6 components from a pool containing ns, MB, look-alikes (nsec, ans, MBs, xMB), bytes, words, joined by "
           "'/', '*', '-' (and blanks for direct Tidy calls), optional leading/trailing/doubled separators; 1-3 values from "
           "{0,-0,+-Inf,NaN,min subnormal,max,1,random bits,ordinary}. Each case is checked through Tidy, the Reader, "
@@ -19,5 +19,6 @@ PROP = dict(
     units=[
         R("rapid", "A", "./c04", "TestC04Rapid", (15000, 4), (400000, 16)),
         E("grid", "A", "./c04", "TestC04Grid", 1, 1),
+        F("fuzz", "./c04", "FuzzC04", 60),
     ],
 )
